@@ -135,6 +135,10 @@ func runWorld(t *testing.T, spec *bfsSpec, hist []string, verbose bool) (out run
 	synctest.Test(t, func(t *testing.T) {
 		w := newWorld(spec.Cfg)
 		w.settle()
+		w.home = map[string]bool{}
+		for _, sg := range ctlSigs() {
+			w.home[sg] = true
+		}
 		out.valid = true
 		for _, tr := range spec.Setup {
 			if !w.apply(tr) {
@@ -149,13 +153,13 @@ func runWorld(t *testing.T, spec *bfsSpec, hist []string, verbose bool) (out run
 			}
 			w.checkInvariants()
 			if verbose {
-				fmt.Printf("  %-22s -> %s\n", tr, w.canon())
+				fmt.Printf("  %-22s -> %s%s\n", tr, w.canon(), w.ctl())
 			}
 		}
 		if out.valid && spec.Live != nil && len(w.prob) == 0 {
 			// bounded liveness is judged on a copy of the future: it consumes
 			// the world, so the canonical key is taken first
-			out.canon = w.canon()
+			out.canon = w.canon() + w.ctl()
 			for _, tr := range spec.Alphabet {
 				if !w.loopDead && w.can(tr) {
 					out.enabled = append(out.enabled, tr)
@@ -168,7 +172,7 @@ func runWorld(t *testing.T, spec *bfsSpec, hist []string, verbose bool) (out run
 			return
 		}
 		if out.valid {
-			out.canon = w.canon()
+			out.canon = w.canon() + w.ctl()
 			for _, tr := range spec.Alphabet {
 				if !w.loopDead && w.can(tr) {
 					out.enabled = append(out.enabled, tr)
@@ -366,7 +370,12 @@ func runSpecs(t *testing.T, main string, specs []*bfsSpec) {
 	total := time.Until(vh.Deadline())
 	for i, s := range specs {
 		// each world gets an equal share of what remains
-		share := time.Until(vh.Deadline()) / time.Duration(len(specs)-i)
+		// (most worlds finish well within their share, so a world may use up
+		// to three shares; what it leaves is redistributed)
+		share := 3 * time.Until(vh.Deadline()) / time.Duration(len(specs)-i)
+		if rem := time.Until(vh.Deadline()); share > rem {
+			share = rem
+		}
 		_ = total
 		bfs(t, s, res, main, time.Now().Add(share))
 	}
